@@ -112,3 +112,7 @@ func streamSeed(r *randomBitStream) uint64
 // loopFrameValue returns, inside pre()/post() of a cut loop, the first value in the loop's
 // frame whose type prints as typ (e.g. "*pgregory.net/rapid.randomBitStream").
 func loopFrameValue(typ string) any
+
+// tickingTimestamps(true): the wall clock may cross a second boundary between any two formatted
+// timestamps (each time.Time.Format is a case split "same second / next second").
+func tickingTimestamps(on bool)
